@@ -80,6 +80,10 @@ var c14Kinds = []vkind{
 	{"float-fraction", func(r *core.Rng) string { return core.Pick(r, []string{"0.5", "-2.75", "3.141592653589793", "0.1", "1e-7", "123456.789"}) }},
 	{"float-integral", func(r *core.Rng) string { return core.Pick(r, []string{"3.0", "-7.0", "100.0", "0.0", "1e6", "4503599627370496.0"}) }},
 	{"float-negzero", func(r *core.Rng) string { return "-0.0" }},
+	// integral floats at or above 2^63: written as digits that overflow an integer literal and must read back as that float
+	{"float-integral-beyond-int64", func(r *core.Rng) string {
+		return core.Pick(r, []string{"1e19", "9223372036854775808.0", "-1e19", "1.5e19", "18446744073709551615.0", "1.2e19"})
+	}},
 	{"float-huge", func(r *core.Rng) string { return core.Pick(r, []string{"1e21", "1.7976931348623157e308", "-1e300", "1e100"}) }},
 	{"float-subnormal", func(r *core.Rng) string { return core.Pick(r, []string{"5e-324", "2.2250738585072014e-308", "1e-310"}) }},
 	{"float-inf-nan", func(r *core.Rng) string { return core.Pick(r, []string{"Inf", "-Inf", "NaN"}) }},
@@ -283,6 +287,8 @@ var c14Tricky = []struct {
 	{"tl13", "func-named", `func tl13(x) { y := x; y++; ++y; y - -x }`, []string{`tl13(3)`, `tl13(0)`}},
 	{"tl14", "func-lambda", `tl14 = x => { {"a": x}.a + 1 }`, []string{`tl14(3)`, `tl14(9)`}},
 	{"tl15", "func-lambda", `tl15 = x => { /* nothing but a comment */ }`, []string{`tl15(1)`}},
+	{"tl17", "func-lambda", `tl17 = x => { "say \"hi\"\nline two " + str(x) }`, []string{`tl17(1)`, `tl17(-3)`}},
+	{"tl18", "func-named", "func tl18(x) { s := \"a\\\"b\\nc\"; len(s) + x }", []string{`tl18(1)`, `tl18(0)`}},
 	{"tl16alias", "func-lambda", "func tl16(x) { x + 1 }\ntl16alias = tl16", []string{`tl16alias(3)`, `tl16alias(-1)`}},
 }
 
